@@ -1000,7 +1000,24 @@ func (s *State) mutateVPN(t *rapid.T, o GenOpts, label string) string {
 		}
 		return "vpn:tunnelGroupReplaced"
 	case 17: // objects without generated name that nothing managed uses
-		switch rapid.IntRange(0, 2).Draw(t, label+"um") {
+		switch rapid.IntRange(0, 4).Draw(t, label+"um") {
+		case 3, 4:
+			// crypto map bound at an interface Netspoc does not know;
+			// the binding is listed before ("backup") or after ("wan2")
+			// those of the managed interfaces
+			nif := pick(t, []string{"backup", "wan2"}, label+"umIf")
+			if len(s.Intfs) == 0 || len(s.Intfs) >= len(hwNames) || s.hasNameif(nif) {
+				return "vpn:noop"
+			}
+			s.Intfs = append(s.Intfs, &Intf{HW: hwNames[len(s.Intfs)], Nameif: nif})
+			name := "crypto-" + nif
+			o := g.put(kCMap, name)
+			s.ensureTransform(t, kTSet, "MANUAL-TS", label+"umTS")
+			acl := "crypto-" + nif + "-1"
+			s.ACLs[acl] = vpnACL(t, label+"umACL", false)
+			o.mode("1").Lines = []string{"match address " + acl, "set peer 10.99.9.1", "set ikev1 transform-set MANUAL-TS"}
+			g.CryptoIf[nif] = name
+			return "vpn:unmanagedCryptoMap"
 		case 0:
 			if g.get(kGP, "MANUAL") == nil {
 				s.genGroupPolicy(t, "MANUAL", label+"umGP", false)
